@@ -305,8 +305,52 @@ def payload_len_rule(facts, rep, R3):
                 rep.inconc(R3, "%s: where the payload buffer's length comes from was not recognised" % fn)
 
 
+def crop_contract(facts, rep, R5):
+    """texture_utils::crop(input, stride, width, height) returns `height` rows of `width` bytes: every returning path
+    has built its result from row slices inside the row loop; no path hands back the input as a whole."""
+    cb = facts.body("mila::texture_utils::crop")
+    if cb is None:
+        rep.inconc(R5, "texture_utils::crop not found")
+        return
+    where = "%s:%s" % (cb.file, cb.line)
+    try:
+        paths = [p for p in enum_paths(cb) if p.end == "ret"]
+    except PathLimit:
+        rep.inconc(R5, "crop: too many paths")
+        return
+    whole = None
+    for p in paths:
+        r = strip_refs(p.ret) if p.ret else None
+        for x in walk(r) if r else []:
+            if x[0] == "call" and x[1].rsplit("::", 1)[-1] in ("to_vec", "to_owned", "from", "into", "clone", "into_vec") and x[2]:
+                a0 = strip_refs(x[2][0])
+                while a0[0] == "deref":
+                    a0 = strip_refs(a0[1])
+                if a0[0] == "param" and a0[1] == 1:
+                    whole = "; ".join(fmt(c[1])[:50] for c in p.conds[-2:]) or "unconditionally"
+    # the row loop: a range over 0..height whose body appends input[r*stride .. r*stride + width]
+    rows = False
+    for lp in for_loops(cb):
+        if lp["kind"] == "for" and lp["src"] is not None and any(x[0] == "param" and x[1] == 4 for x in walk(lp["src"])):
+            for bb in lp["blocks"]:
+                t = cb.blocks[bb]["term"]
+                if t["k"] == "call" and "ops::Index" in (callee_names(t)[1] or "") and len(t["args"]) == 2:
+                    base = strip_refs(cb.term_of_operand(t["args"][0]))
+                    while base[0] == "deref":
+                        base = strip_refs(base[1])
+                    if base[0] == "param" and base[1] == 1:
+                        rows = True
+    if whole is not None:
+        rep.violation(R5, cb.name, "crop-returns-input", "texture_utils::crop returns its whole input on a path (%s): rows beyond `height` (block padding) are not trimmed there" % whole, where)
+    elif rows:
+        rep.ok(R5, {"fn": cb.name, "contract": "height rows of width bytes taken from row slices"})
+    else:
+        rep.inconc(R5, "crop: the row loop was not recognised")
+
+
 def tpl_pipeline_rule(facts, rep, R5):
     """TPL: block_to_sequential gets the block-aligned width and height; what is decoded is always crop's result."""
+    crop_contract(facts, rep, R5)
     ex = facts.body("mila::tpl::Tpl::extract_textures")
     if ex is None:
         return
